@@ -237,6 +237,12 @@ func (r *reader) Clone(sr *io.SectionReader) (metadata.Reader, error) {
 	if err != nil {
 		return nil, err
 	}
+	// The TOC (including the chunk digests used for verification) is parsed again from
+	// the passed reader. It must be the same TOC as the one of this reader, which the
+	// caller possibly has verified already.
+	if want, got := r.r.TOCDigest(), er.TOCDigest(); want != got {
+		return nil, fmt.Errorf("TOC of the cloned reader %q differs from the original %q", got, want)
+	}
 
 	return newReader(er, r.rootID, r.idMap, r.idOfEntry, r.estargzOpts), nil
 }
